@@ -682,6 +682,10 @@ def codec_error_stage(ck, fw):
         if verdict == ("fail", "zlib") and not ws_recv.codec_raised(c, r) and not probs:
             probs.append((f"{c['role']}/invalid-compressed-data/accepted", "the oracle's inflater rejects the compressed payload, the "
                           "implementation's decompressor was not seen to raise"))
+        if verdict == ("fail", "zlib") and not c["fbd"] and not probs and (r["state"] != "CLOSING" or any(e[0] == "drop" for e in r["events"])):
+            # nothing after the rejected message is compressed: one failure, then the closing handshake must be left running
+            probs.append((f"{c['role']}/closing-handshake-abandoned", f"after announcing 1007 the endpoint dropped the connection itself "
+                          f"(state {r['state']}, events after the close frame {[e[:2] for e in r['events'] if e[0] in ('drop', 'sendclose')][:4]})"))
         for key, what in probs:
             ck.violation(key if key == ws_recv.CODEC_ERROR_KEY else f"pmc/invalid-compressed-data/{key}",
                          f"[{fw}] {c['label']}, {c['role']} role, failByDrop={c['fbd']}, utf8validateIncoming={c['utf8']}, reads "
